@@ -335,7 +335,7 @@ Proof.
   - intros x Hx. apply filter_In in Hx. destruct Hx as [Hx G]. apply negb_true_iff in G. now apply (IK x Hx).
   - intros x y Hx Hy K. apply filter_In in Hx. destruct Hx as [Hx G]. apply negb_true_iff in G.
     destruct (new x) eqn:Hn.
-    + destruct (L4 x Hx Hn) as [_ [c1 [H1 [K1 [_ [_ I]]]]]].
+    + destruct (L4 x Hx Hn) as [_ [c1 [H1 [K1 [_ [_ [I _]]]]]]].
       assert (c1 = y) by (apply (NoDup_map_inj key ch1); auto; congruence). subst c1.
       unfold oddids. rewrite I, filter_all_odd. apply SubP_refl.
     + unfold oddids. rewrite ids_t_unfold. cbn [filter]. rewrite (L3 x Hx), Hn.
